@@ -1,6 +1,9 @@
 mod alloc;
 mod api;
+mod fam_builder;
 mod fam_comm;
+mod fam_drop;
+mod fam_pipe;
 mod fam_shrink;
 mod fam_spawn;
 mod fam_status;
